@@ -243,3 +243,17 @@ Theorem C19_skipper_is_source : forall (E : env) (s : st) (buf : bytes) (fuel : 
 Proof. exact (@CursorSrc.cursor_model_is_translated_source). Qed.
 Print Assumptions C19_skipper_is_source.
 
+
+(* ---- Deserializer::ignore_value — the ITERATIVE skip scanner (scratch as a stack of open brackets, the enclosing local, labelled loops) — TRANSLATED ON THIS RUN
+        (tools/translate_ignore.py -> Gen/IgnoreTables.v); the model of Model/Ignore.v equals the interpreted source for every environment and cursor ---- *)
+From Coq Require Import String.
+From SJ Require Import Base.Bytes Base.Utf8 Gen.Tables Model.Read Model.Str Model.Num Model.De Model.Ignore Model.ScanAst
+  Gen.CursorTables Gen.IgnoreTables Proofs.ScanSrc Proofs.CursorSrc Proofs.Total.
+Require Import Lia.
+From SJ Require Import Proofs.IgnoreSrc.
+Theorem C19_ignore_value_is_source : forall (E : env) (s : st) (buf : bytes) (fuel : nat),
+  (ignore_fuel s + length (rest s) + 23 <= fuel)%nat ->
+  run_scan fuel E IGNORE_TABLE "ignore_value" None s buf = let* s' := Ignore.ignore_value E s in Ok (RUnit, [], s').
+Proof. exact (@IgnoreSrc.ignore_value_is_translated_source). Qed.
+Print Assumptions C19_ignore_value_is_source.
+
